@@ -75,43 +75,12 @@ pub const HEAP_BASE: usize = 64 * 1024;
 pub const HEAP_PER_BYTE: usize = 1024;
 pub const HEAP_HARD_CAP: usize = 1 << 30;
 pub const CPU_LIMIT_S: f64 = 5.0;
-pub const CPU_CONFIRM_S: f64 = 20.0;
-
-static WATCHDOG: std::sync::Once = std::sync::Once::new();
-
-fn ensure_watchdog() {
-    WATCHDOG.call_once(|| {
-        meter::start_watchdog(CPU_LIMIT_S, |input| {
-            let (prop, dir) = crate::driver::RUN_INFO.lock().unwrap().clone().unwrap_or(("C01".into(), "/verif/replays".into()));
-            let copy = input.clone();
-            let finished = meter::finishes_within(CPU_CONFIRM_S, move || {
-                let _ = Packet::parse(&copy);
-            });
-            if finished {
-                eprintln!("watchdog: a case exceeded {} CPU-s but finished on an isolated re-run; not reported", CPU_LIMIT_S);
-                return;
-            }
-            let path = dir.join(format!("{}-hang.json", prop));
-            let v = serde_json::json!({
-                "property": prop, "section": "bytes", "signature": "c01:hang",
-                "message": format!("Packet::parse burnt more than {} CPU-seconds twice on this input", CPU_CONFIRM_S),
-                "input": crate::runner::hex(&input),
-            });
-            let _ = std::fs::write(&path, serde_json::to_string_pretty(&v).unwrap());
-            println!("VIOLATION property={} replay={}", prop, path.display());
-            std::process::exit(1);
-        });
-    });
-}
 
 /// Parse `b` under all three instruments. Returns whether the parser accepted the input.
 pub fn guarded_parse(b: &[u8], case: &mut Case) -> Result<bool, Fail> {
-    ensure_watchdog();
-    meter::watch_begin(b);
     let t0 = meter::thread_cpu_ns();
     let (r, heap) = meter::measure(b, HEAP_HARD_CAP, || meter::catch(|| Packet::parse(b).map(|p| p.questions.len() + p.answers.len() + p.name_servers.len() + p.additional_records.len())));
     let dt = (meter::thread_cpu_ns() - t0) as f64 / 1e6;
-    meter::watch_end();
     case.max("cpu_ms_per_case", dt);
     case.max("heap_bytes_per_input_byte", heap.peak as f64 / b.len().max(1) as f64);
     let accepted = match r {
